@@ -196,7 +196,9 @@ impl FunctionCompiler<'_> {
                 let item_size = item_ty.size();
                 let item_stride = item_ty.stride();
 
-                let mut array = Vec::<u8>::with_capacity(item_stride as usize * items.len());
+                // zeroed, because the bytes between an item's size and its stride are never
+                // written below, and they end up in the final binary
+                let mut array = vec![0u8; item_stride as usize * items.len()];
 
                 for (idx, item) in items.into_iter().enumerate() {
                     let item = self.expr_to_const_data(loc, item)?;
@@ -209,8 +211,6 @@ impl FunctionCompiler<'_> {
                         );
                     }
                 }
-
-                unsafe { array.set_len(array.capacity()) }
 
                 array.into()
             }
